@@ -538,6 +538,12 @@ def run(ctx) -> None:
                 it = "included_patterns= " + ast.unparse(functional[0])
             if not isinstance(functional[1], ast.Name):
                 et = "excluded_patterns= " + ast.unparse(functional[1])
+        # module-level constants holding the defaults read as their values
+        for cn_, cv_ in fp.module.consts.items():
+            if isinstance(cv_, (ast.Tuple, ast.List, ast.Set, ast.Constant)) or (isinstance(cv_, ast.Call) and ast.unparse(cv_.func) in ("frozenset", "set", "tuple", "list")):
+                it = re.sub(rf"\b{re.escape(cn_)}\b", ast.unparse(cv_), it)
+                et = re.sub(rf"\b{re.escape(cn_)}\b", ast.unparse(cv_), et)
+        et = re.sub(r"set\((\(\)|\[\]|frozenset\(\)|set\(\)|tuple\(\))\)", "set()", et)
         if inc is None or exc is None:
             okf = False
             msgs.append("defaults are not applied exactly when the argument is None (no `is None` test on this path)")
@@ -561,6 +567,7 @@ def run(ctx) -> None:
     for p in ps:
         c = p.conds()
         common = [v for a, v in c.items() if "&" in a or "common" in a]
+        common += [not v for a, v in c.items() if ".isdisjoint(" in a]  # `not A.isdisjoint(B)` is `A & B` non-empty
         asg0 = {e.extra.get("name"): e.text for e in p.evs if e.kind == "assign"}
 
         def iterates(a: str, param: str) -> bool:
